@@ -88,8 +88,30 @@ def rule_text(kind, p, u):
 
 # ---------------------------------------------------------------- generation
 
-def gen_op(rng, nsheet, conts, depth_kinds):
+MEDIA_TEXTS = ['@media print { b { top: 0 } /*c*/ @page { margin: 0 } }', '@media tv {}',
+               '@media print { @media tv { c { left: 0 } } @x y; }', '@media print { a { left: 0 } @import "x.css"; }']
+PAGE_TEXTS = ['@page :left { margin: 1px; @top-left { left: 0 } }', '@page { margin: 0 }',
+              '@page :right { @bottom-center { top: 0 } @top-left { left: 0 } }']
+
+
+def gen_text_op(rng, conts):
+    if conts and rng.random() < 0.5:
+        cid, ck, n = rng.choice(conts)
+        return ('rtext', cid, rng.choice(MEDIA_TEXTS if ck == 'media' else PAGE_TEXTS))
+    ks = [rng.choice(KINDS[:10]) for _ in range(rng.randrange(0, 7))]
+    if rng.random() < 0.6:
+        ks.sort(key=lambda k: {'charset': 0, 'import': 1, 'namespace': 2, 'variables': 3}.get(k, 4))
+    text = ''
+    for j, k in enumerate(ks):
+        text += ('@namespace p%d "v%d";' % (j, j)) if k == 'namespace' else TEXTS[k].replace('{}', '{ a { left: 0 } }')
+        text += '\n'
+    return ('stext', text)
+
+
+def gen_op(rng, nsheet, conts, depth_kinds, text_ops=False):
     """one random operation; nsheet = current sheet length, conts = [(cid, kind, length)]"""
+    if text_ops and rng.random() < 0.12:
+        return gen_text_op(rng, conts)
     r = rng.random()
     kind = rng.choice(KINDS[:10]) if rng.random() < 0.93 else 'margin'
     p, u = rng.randrange(1, 4), rng.randrange(1, 4)      # never the default namespace: see notes (in-use refusal, C15)
@@ -151,19 +173,23 @@ class World:
         if kind in ('media', 'page') and mid not in self.conts:
             self.conts.append(mid)
 
-    def discover(self, mid):
-        """objects created inside the library (text insert, encoding, namespaces[]=): give the first unknown one the id"""
-        lists = [self.sheet.cssRules] + [self.objs[c].cssRules for c in self.conts if self.objs[c] is not None]
-        for l in lists:
+    def discover(self, mid, many=False):
+        """objects created inside the library (text insert, encoding, namespaces[]=): give the first unknown one the
+        id of the step; after a text replacement (search-only histories) all new objects get synthetic ids"""
+        extra = mid * 1000
+        todo = [self.sheet.cssRules] + [self.objs[c].cssRules for c in self.conts if self.objs[c] is not None]
+        while todo:
+            l = todo.pop()
             for o in l:
                 if id(o) not in self.ids:
                     k = self.T[o.type]
-                    old = self.objs.get(mid)
-                    if old is None:
+                    if self.objs.get(mid) is None and not many:
                         self.know(mid, o, k)
+                    elif many:
+                        extra += 1
+                        self.know(extra, o, k)
                         if k in ('media', 'page'):
-                            # a container from text comes with children: not generated
-                            pass
+                            todo.append(o.cssRules)
                     else:
                         raise RuntimeError('two unknown objects in one step')
 
@@ -257,13 +283,32 @@ def apply_op(w, op, mid):
             flat = [6, mid, 0, p, u, 0]
             sheet.namespaces[PFX[p]] = URI[u]
             ret = None
+        elif code == 'stext':
+            # replace the text of the sheet (search only): any kind order; disordered rules are dropped (log-only
+            # mode for this call: an exception in the middle of a parse is C11's partial commit)
+            flat = None
+            cssutils.log.raiseExceptions = False
+            try:
+                sheet.cssText = op[1]
+            finally:
+                cssutils.log.raiseExceptions = True
+            ret = None
+        elif code == 'rtext':
+            flat = None
+            c = w.objs[op[1]]
+            cssutils.log.raiseExceptions = False
+            try:
+                c.cssText = op[2]
+            finally:
+                cssutils.log.raiseExceptions = True
+            ret = None
         else:
             raise ValueError(op)
         res = [1, ret] if ret is not None else [0, 0]
     except Exception as e:  # noqa
         res = [2, EXN.get(impl.exc_class(e), 99)]
         w.last_exc = '%s: %s' % (impl.exc_class(e), str(e)[:120])
-    w.discover(mid)
+    w.discover(mid, many=code in ('stext', 'rtext'))
     return flat, res
 
 
@@ -284,6 +329,8 @@ def tree(w, rules, inside=None):
         k = w.T[r.type]
         if inside == 'page' or (inside == 'media' and k == 'variables'):
             continue
+        if k == 'page' and not r.cssText:
+            continue            # an @page rule without declarations and margin rules is never serialised (no pref for it)
         out.append((k, tree(w, r.cssRules, k)) if k in ('media', 'page') else (k,))
     return tuple(out)
 
@@ -316,9 +363,6 @@ def wf_impl(w):
     for mid, o in w.objs.items():
         if o is not None and id(o) not in expect and w.kind[mid] in ('media', 'page'):
             # a detached container: its children are contained in it, but not in the sheet
-            pass
-    for mid, o in w.objs.items():
-        if o is not None and id(o) not in expect and w.kind[mid] in ('media', 'page'):
             walk_detached(w, o, expect, bad)
     for mid, o in w.objs.items():
         if o is None:
@@ -383,7 +427,7 @@ NESTED_KINDS = ['style', 'style', 'comment', 'unknown', 'page', 'media', 'margin
                 'namespace', 'font-face']
 
 
-def run_history(ctx, ops=None, n=20, reparse_every=1):
+def run_history(ctx, ops=None, n=20, reparse_every=1, text_ops=False):
     """ops given: replay them; else generate n random ops looking only at list lengths"""
     rng = ctx.rng
     w = World()
@@ -395,7 +439,7 @@ def run_history(ctx, ops=None, n=20, reparse_every=1):
             op = tuple(ops[stepno])
         else:
             conts = [(c, w.kind[c], len(w.objs[c].cssRules)) for c in w.conts if w.objs[c] is not None]
-            op = gen_op(rng, len(w.sheet.cssRules), conts, NESTED_KINDS)
+            op = gen_op(rng, len(w.sheet.cssRules), conts, NESTED_KINDS, text_ops)
         done.append(list(op))
         if op[0] == 'style':
             # replace the declaration block of some rule: parents of style/properties (search only)
@@ -412,7 +456,7 @@ def run_history(ctx, ops=None, n=20, reparse_every=1):
             flat, res = None, None
         else:
             flat, res = apply_op(w, op, mid)
-        if res is not None and res[1] == 99:
+        if res is not None and res[0] == 2 and res[1] == 99:
             ctx.disagree('unexpected-exception', case, w.last_exc, None)
             return None
         # ---- search: the property on the implementation
@@ -426,7 +470,7 @@ def run_history(ctx, ops=None, n=20, reparse_every=1):
                 ctx.violation('reparse-loses-rule' if top or after is None else 'reparse-nested', case,
                               'after op %d %r: %s' % (stepno, op, msg), KNOWN_PRED)
                 return None
-        if flat is not None:
+        if flat is not None and not text_ops:
             flats += flat
             wants.append((res, w.observe()))
     return flats, wants, case
@@ -471,12 +515,37 @@ def exhaustive_ops(depth, alphabet):
 
 def run(ctx):
     quick = ctx.tier == 'quick'
-    nh, maxlen = (450, 40) if quick else (2500, 400)
+    nh, maxlen = (800, 40) if quick else (2500, 400)
     ctx.cov['rule'] = ('random edit histories on one sheet and on the @media/@page objects it creates: insertRule (objects and '
                        'one-rule texts) at indexes in, at the edge of and outside the list incl. negative ones, add, deleteRule '
                        '(index, negative index, rule object), nested insertRule/add/deleteRule (nesting of any depth), encoding=, '
                        'namespaces[p]=u, style replacement; 11 rule kinds (10 + margin); distinct = distinct op lists')
     model_cases, wants, cases = [], [], []
+
+    stats = {'histories': 0, 'agree': 0, 'steps': 0}
+
+    def flush():
+        """correspondence for the histories collected so far (in batches: memory)"""
+        if not model_cases:
+            return
+        if not ctx.model.available:
+            del model_cases[:], wants[:], cases[:]
+            return
+        outs = ctx.model.run(model_cases)
+        for want, o, case in zip(wants, outs, cases):
+            stats['histories'] += 1
+            stats['steps'] += len(want)
+            recs = parse_model(o or [], len(want))
+            if recs is None:
+                ctx.disagree('sheet-model-output', case, None, (o or [])[:40])
+                continue
+            want = [(res, (sh, cs, sorted(nd))) for res, (sh, cs, nd) in want]
+            if recs == want:
+                stats['agree'] += 1
+                continue
+            k = next(i for i, (a, b) in enumerate(zip(recs, want)) if a != b)
+            ctx.disagree('sheet-step', {'ops': case['ops'], 'step': k}, want[k], recs[k])
+        del model_cases[:], wants[:], cases[:]
 
     def record(r):
         if r is None:
@@ -486,6 +555,10 @@ def run(ctx):
             model_cases.append([90] + flats)
             wants.append(want)
             cases.append(case)
+            if not ctx.cov['samples']:
+                ctx.sample(case)
+        if len(model_cases) >= 20000:
+            flush()
 
     for h in range(nh):
         if quick:
@@ -496,8 +569,14 @@ def run(ctx):
         if r is not None:
             ctx.case(tuple(map(tuple, r[2]['ops'])))
         record(r)
-    if cases:
-        ctx.sample(cases[0])
+    # search-only histories: the same operations mixed with replacements of the text of the sheet / of a rule
+    nso = 0
+    for h in range(nh // 3):
+        r = run_history(ctx, n=ctx.rng.randrange(1, 41), reparse_every=1, text_ops=True)
+        if r is not None:
+            ctx.case(('text',) + tuple(map(tuple, r[2]['ops'])))
+            nso += 1
+    ctx.extra['search_only_histories_with_text_replacement'] = nso
     # exhaustive short histories
     alpha = []
     for k in KINDS[:10]:
@@ -518,8 +597,9 @@ def run(ctx):
             record(r)
             nex += 1
     if not quick:
-        # length 4 over the twenty add / insert-at-0 operations
-        small = [a for a in alpha if a[0] == 'add' or (a[0] == 'ins' and a[4] == 0)]
+        # length 4 over add of every kind and insert-at-0 of the ordered kinds and a style rule
+        small = [a for a in alpha if a[0] == 'add' or (a[0] == 'ins' and a[4] == 0 and a[1] in (
+            'charset', 'import', 'namespace', 'variables', 'style'))]
         for ops in exhaustive_ops(4, small):
             r = run_history(ctx, ops=ops, reparse_every=4)
             ctx.case(('ex',) + tuple(ops))
@@ -528,21 +608,8 @@ def run(ctx):
     ctx.extra['exhaustive_histories'] = nex
     # ---- correspondence
     if ctx.model.available:
-        outs = ctx.model.run(model_cases)
-        agree = 0
-        for want, o, case in zip(wants, outs, cases):
-            recs = parse_model(o or [], len(want))
-            if recs is None:
-                ctx.disagree('sheet-model-output', case, None, (o or [])[:40])
-                continue
-            want = [(res, (sh, cs, sorted(nd))) for res, (sh, cs, nd) in want]
-            if recs == want:
-                agree += 1
-                continue
-            k = next(i for i, (a, b) in enumerate(zip(recs, want)) if a != b)
-            ctx.disagree('sheet-step', {'ops': case['ops'], 'step': k}, want[k], recs[k])
-        ctx.extra['correspondence'] = {'histories': len(cases), 'agree': agree,
-                                       'steps': sum(len(w_) for w_ in wants)}
+        flush()
+        ctx.extra['correspondence'] = dict(stats)
         # the level machine against the parser: kind lists in any order
         reparse_correspondence(ctx, 400 if quick else 5000)
     else:
@@ -568,8 +635,6 @@ def reparse_correspondence(ctx, n):
             else:
                 text += TEXTS[k]
             text += '\n' if rng.random() < 0.5 else ''
-        if text.endswith('\n') is False and rng.random() < 0.3:
-            pass
         s = cssutils.css.CSSStyleSheet()
         try:
             s.cssText = text
